@@ -270,8 +270,6 @@ def merge_and_report(prop, meta, tier, seed, versions, missing, nshards, results
         for v in scope:
             if per_py[v]["reach"].get(name, 0) + tot["outcomes"].get(name, 0) == 0:
                 unreached.append("<%s> on %s" % (name, v))
-    if unreached:
-        harness_fail("space does not reach " + ", ".join(unreached))
 
     known = load_known()
     os.makedirs(os.path.join(VERIF, "replays", prop), exist_ok=True)
@@ -305,6 +303,9 @@ def merge_and_report(prop, meta, tier, seed, versions, missing, nshards, results
             print("  case=%s" % json.dumps(rec["case"])[:400])
         printed += 1
 
+    if unreached and not new_kinds:
+        # silence from a driver that never reached the code means nothing
+        harness_fail("space does not reach " + ", ".join(unreached))
     n_new = sum(len(r) for r in new_kinds.values())
     wall = time.time() - t0
     level = meta["level"]
